@@ -388,6 +388,11 @@ def builtin(eng, name, args, kwargs, st):
     elif name == 'sum':
         items = seq_items(eng, args[0], st)
         if items is None:
+            from . import npmodel
+            a = npmodel.arr_of(eng, st, args[0])
+            if a is not None and a.ndim == 1:
+                yield npmodel.reduce_sum(eng, st, a, args[0] if isinstance(args[0], Ref) else None), st
+                return
             raise OutOfSubset('sum over symbolic-length sequence')
         r = 0
         for x in items:
@@ -913,7 +918,24 @@ def _sum_fact(name):
     return f
 
 
+def spec_floor(eng, args, kwargs, st):
+    yield to_real(floor_(args[0])), st
+
+
+def spec_assert_step(eng, args, kwargs, st):
+    """assert_step(cond): an intermediate fact, proved as its own obligation and then available to the clauses that follow"""
+    cond = to_z3(to_bool(args[0]))
+    label = kwargs.get('label', 'step')
+    if eng.lemma_mode:
+        eng.oblige('lemma', label, st, cond)
+    elif eng.clauses is not None:
+        eng.clauses.append({'kind': 'hint', 'premise': cond, 'conclusion': cond, 'label': label, 'line': getattr(eng.cur_stmt, 'lineno', None)})
+    yield None, st
+
+
 SPEC = {
+    'assert_step': spec_assert_step,
+    'floor': spec_floor,
     'sum_of': spec_sum,
     'sum_nonneg': _sum_fact('sum_nonneg'), 'sum_le': _sum_fact('sum_le'), 'sum_eq': _sum_fact('sum_eq'), 'sum_add': _sum_fact('sum_add'),
     'sum_scale': _sum_fact('sum_scale'), 'sum_zero': _sum_fact('sum_zero'), 'sum_ge_term': _sum_fact('sum_ge_term'), 'sum_const': _sum_fact('sum_const'),
